@@ -21,17 +21,27 @@ TEMPLATES = [("SELECT '$' FROM t", "lit1"), ("SELECT a FROM t WHERE b = '$' AND 
              ("SELECT `$` FROM t", "name"), ("SELECT a AS `$` FROM t", "name"), ("SELECT t.`$` FROM t", "name"), ("SELECT a FROM t AS `$`", "name"),
              ("SELECT a /* $ */ FROM t", "c2"), ("SELECT a -- $\n FROM t", "c1"), ("SELECT a # $\nFROM t", "c1"), ("SELECT /*$*/ a, b FROM t -- $\n", "c2"),
              ("CREATE TABLE t (a INT COMMENT '$') COMMENT='$'", "lit1"), ("SELECT a FROM t; SELECT '$'; SELECT b FROM u", "lit1"),
-             ("SELECT (a + ('$')) FROM (SELECT '$' AS x FROM t) y", "lit1")]
+             ("SELECT (a + ('$')) FROM (SELECT '$' AS x FROM t) y", "lit1"),
+             ("SELECT a /** $ **/, b FROM t /* tail */", "c2"), ("SELECT a /*$**/, b FROM t /* tail */", "c2"), ("SELECT a /***$***/ FROM t /* x */", "c2"),
+             ("SELECT \"$\" AS x, b FROM t WHERE c = \"$\" AND d = 'tail'", "lit2"), ("SELECT a FROM t WHERE b = '$' AND c = \"q\" AND d = 'tail'", "lit1")]
 ATOMS = ["SELECT", "FROM", " ", ";", "(", ")", "[", "]", ",", "--", "/*", "#", "+", "<=>", "||", "&&", "!", "=", "a", "B", "0", "1.5", "0x1F", "NULL", "名", "é", "#{p}", "}",
          "{", ".", "%", "^", "~", "|", "&", "<", ">", "@", "$", "?", ":", "x'", "UNION", "WHERE 1=1", "*"]
 FORBIDDEN = {"lit1": ["'", "\\"], "lit2": ['"', "\\"], "name": ["`", "."], "c1": ["\n"], "c2": ["*/", "*"]}
 
 
+# escapes are part of the quoted text: a backslash pair and a doubled delimiter stay inside the literal
+ESCAPES = {"lit1": ["\\\\", "\\'", "\\\"", "\\t", "''", "\\n"], "lit2": ["\\\\", "\\\"", "\\'", "\\t", '""']}
+
+
 def payload(rng, kind, dialect):
     for _ in range(50):
-        p = "".join(rng.choice(ATOMS) for _ in range(rng.choice([0, 1, 1, 2, 3, 5, 8])))
-        if any(x in p for x in FORBIDDEN[kind]):
+        atoms = [rng.choice(ATOMS) for _ in range(rng.choice([0, 1, 1, 2, 3, 5, 8]))]
+        if any(any(x in a for x in FORBIDDEN[kind]) for a in atoms):
             continue
+        if kind in ESCAPES and rng.random() < 0.35:
+            for _ in range(rng.choice([1, 1, 2])):
+                atoms.insert(rng.randrange(len(atoms) + 1), rng.choice(ESCAPES[kind]))
+        p = "".join(atoms)
         if kind == "name" and (p.strip() != p or p == ""):
             continue                                   # a name is compared after the enclosing back-quotes are stripped
         if dialect == "HIVE" and "==" in p:
